@@ -838,6 +838,16 @@ class Driver:
 
     def compare(self, op, a, b, s, func, node):
         if isinstance(op, (ast.In, ast.NotIn)):
+            if isinstance(b, dict) and isinstance(a, str):
+                # a dictionary the analysis built: its own keys are known, the entries of a spread / update argument are not
+                spreads = [v for k, v in b.items() if k.startswith("**")]
+                if a in b:
+                    c = True
+                elif not spreads:
+                    c = False
+                else:
+                    c = CBool("%s in %s.keys()" % (a, "+".join(getattr(v, "name", "?") for v in spreads)))
+                return c if isinstance(op, ast.In) else self.cnot(c)
             name = "%s in %s" % (a if isinstance(a, str) else "x", getattr(b, "name", "container"))
             c = CBool(name)
             return c if isinstance(op, ast.In) else CNot(c)
@@ -970,7 +980,10 @@ class Driver:
                 for k, v in (args[0].items() if isinstance(args[0], dict) else []):
                     d[k] = v
                 if not isinstance(args[0], dict):
-                    d["**upd"] = args[0]
+                    key = "**upd"
+                    while key in d:
+                        key += "'"
+                    d[key] = args[0]
                 return [(s, None)]
             if a in ("keys", "values", "items"):
                 return [(s, Opq("dict.%s" % a))]
@@ -1092,7 +1105,22 @@ class Driver:
             # a new list with the same elements: an untracked copy of an untracked container, opaque otherwise
             a = args[0]
             return [(s, list(a) if isinstance(a, (list, tuple)) else Opq("listcopy"))]
-        if n in ("builtin:print", "mod:np.save", "mod:np.vstack", "builtin:zip", "builtin:range", "str.format", "builtin:isinstance", "builtin:sorted", "builtin:enumerate", "builtin:dict", "builtin:str", "builtin:repr", "builtin:callable"):
+        if n == "builtin:dict":
+            # dict() / dict(d) / dict(d, k=v): a NEW dictionary; the entries of an argument the analysis does not see are kept
+            # as a spread of that argument (as in {**d})
+            d = {}
+            if args:
+                a = args[0]
+                if isinstance(a, dict):
+                    d.update(a)
+                elif isinstance(a, Opq):
+                    d["**0"] = a
+                else:
+                    return [(s, Opq("void"))]
+            for k_, v_ in kw.items():
+                d[k_] = v_
+            return [(s, d)]
+        if n in ("builtin:print", "mod:np.save", "mod:np.vstack", "builtin:zip", "builtin:range", "str.format", "builtin:isinstance", "builtin:sorted", "builtin:enumerate", "builtin:str", "builtin:repr", "builtin:callable"):
             return [(s, Opq("void"))]
         if n in ("builtin:any", "builtin:all"):
             return [(s, CBool("%s()" % n[8:]))]
